@@ -111,6 +111,9 @@ class Ctx:
         """lake build the property module, then audit axioms of every listed theorem."""
         prop = self.prop
         mods = modules or ["Golem.Props.%s" % prop]
+        if os.environ.get("VERIF_DEV_SKIP_PROOF"):  # development aid only; registered commands never set it
+            self.broken.append({"kind": "proof-obligation", "theorem": "<skipped>", "detail": "VERIF_DEV_SKIP_PROOF set"})
+            return False
         with Lock():
             rc, o, e = run(["lake", "build"] + mods, cwd=LEAN)
             build_ok = rc == 0
@@ -175,11 +178,11 @@ class Ctx:
             raise RuntimeError("oracle %s failed rc=%d: %s" % (sub, rc, e[-2000:]))
         return o.split("\n")[:-1] if o.endswith("\n") else o.split("\n")
 
-    def harness(self, name, replaces, stage=None, tags="verif", extra_files=None, race=False):
+    def harness(self, name, replaces, stage=None, tags="verif", extra_files=None, race=False, test=False, suffix=""):
         """Copy go/harness/<name> to a temp module wired to /repo by replace directives and build it.
         Returns (binary path, None) or (None, error)."""
         src = os.path.join(VERIF, "go/harness", name)
-        dst = os.path.join(self.tmp, "h-" + name + ("-race" if race else ""))
+        dst = os.path.join(self.tmp, "h-" + name + suffix + ("-race" if race else ""))
         if os.path.exists(dst):
             shutil.rmtree(dst)
         shutil.copytree(src, dst)
@@ -191,7 +194,8 @@ class Ctx:
         gomod = ["module harness", "", "go 1.24", ""]
         sums = []
         for mod, path in replaces.items():
-            gomod.append("require %s v0.0.0-00010101000000-000000000000" % mod)
+            mv = re.search(r"/v(\d+)$", mod)
+            gomod.append("require %s v%s.0.0-00010101000000-000000000000" % (mod, mv.group(1) if mv else "0"))
             gomod.append("replace %s => %s" % (mod, path))
             s = os.path.join(path, "go.sum")
             if os.path.exists(s):
@@ -199,7 +203,7 @@ class Ctx:
         open(os.path.join(dst, "go.mod"), "w").write("\n".join(gomod) + "\n")
         open(os.path.join(dst, "go.sum"), "w").write("".join(sums))
         binp = os.path.join(dst, "harness.bin")
-        cmd = [GO, "build", "-tags", tags, "-o", binp] + (["-race"] if race else []) + ["."]
+        cmd = ([GO, "test", "-c"] if test else [GO, "build"]) + ["-tags", tags, "-o", binp] + (["-race"] if race else []) + ["."]
         rc, o, e = run(cmd, cwd=dst, env=goenv(), timeout=1200)
         if rc != 0:
             return None, (o + e)[-4000:]
